@@ -187,4 +187,64 @@ def c17_setup_checks(seed, tier, cov):
 
 CLAIMS["C17"]["extra_checks"] = c17_setup_checks
 
+
+def c07_determinism(seed, tier, cov):
+    """differential determinism test: each configuration is run in fresh processes under different interpreter hash seeds, with
+    Python's and NumPy's global generators perturbed, and twice in one process; everything observable must hash the same"""
+    import os, subprocess, sys, json as _json
+    from concurrent.futures import ThreadPoolExecutor
+    here = os.path.dirname(os.path.abspath(__file__))
+    n_cases = 3 if tier == "quick" else 16
+    variants = [("0", "plain"), ("1", "plain"), ("random", "perturbed"), ("0", "twice"), ("12345", "perturbed")]
+    jobs = [(ci, hs, mode) for ci in range(n_cases) for hs, mode in variants]
+
+    def run(job):
+        ci, hs, mode = job
+        env = dict(os.environ, PYTHONHASHSEED=hs, PYTHONPATH=os.environ.get("PAMS_REPO", "/repo"), PYTHONDONTWRITEBYTECODE="1")
+        p = subprocess.run([sys.executable, os.path.join(here, "determinism_worker.py"), str(ci + 100 * (seed % 7)), str(seed + 11 * ci + 1), mode],
+                           env=env, capture_output=True, text=True, timeout=1200)
+        lines = [l for l in p.stdout.splitlines() if l.startswith("{")]
+        if p.returncode != 0 or not lines:
+            return job, {"error": (p.stderr or p.stdout)[-400:]}
+        return job, _json.loads(lines[-1])
+    with ThreadPoolExecutor(max_workers=8) as ex:
+        results = list(ex.map(run, jobs))
+    out = []
+    by_case = {}
+    for (ci, hs, mode), r in results:
+        cov["evaluations"] += 1
+        by_case.setdefault(ci, []).append(((hs, mode), r))
+    nontrivial = 0
+    samples = []
+    for ci, rs in by_case.items():
+        errs = [x for x in rs if "error" in x[1]]
+        if errs:
+            out.append({"rule": "run-raised", "at": ci, "detail": {"case": ci, "variant": errs[0][0], "error": errs[0][1]["error"]}})
+            continue
+        digests = {r["digest"] for _, r in rs}
+        if len(digests) != 1:
+            out.append({"rule": "outcome-depends-on-something-else-than-configuration-and-seed", "at": ci,
+                        "detail": {"case": ci, "digests": {f"{v[0]}/{v[1]}": r["digest"][:16] for v, r in rs}}})
+        if not all(r["settings_untouched"] for _, r in rs):
+            out.append({"rule": "settings-object-modified-by-run", "at": ci, "detail": {"case": ci}})
+        if rs[0][1]["fills"] > 0:
+            nontrivial += 1
+        samples.append({"case": ci, "runs": len(rs), "fills": rs[0][1]["fills"], "logs": rs[0][1]["logs"], "digest": rs[0][1]["digest"][:16]})
+    cov["determinism_cases"] = len(by_case)
+    cov["determinism_cases_with_fills"] = nontrivial
+    cov["determinism_samples"] = samples[:4]
+    cov["determinism_variants"] = [f"PYTHONHASHSEED={h} {m}" for h, m in variants]
+    return out
+
+
+CLAIMS["C07"] = dict(level="other", suites=["C"], design="5/C07", extra_checks=c07_determinism,
+   technique="differential determinism test across processes / hash seeds / perturbed global generators (a test, not a proof) + Coq theorem on seed plumbing + purity of settings handling checked on suite C",
+   text="PARTIAL. A determinism theorem about a Gallina function is empty, so what is proved (props/C07.v) is the seed plumbing (every component seeded by its own draw, in creation order) and that the model's outcome "
+        "is a function of configuration and tapes by type. What decides the property is a differential test, labelled as such: configurations covering every built-in market/agent/event type (correlated fundamentals, "
+        "randomised endowments, agents listing several market groups, high-frequency agents behind a rate strictly between 0 and 1, extends/ranges/legacy keys) are run in fresh processes with PYTHONHASHSEED 0, 1, "
+        "random, 12345, with Python's and NumPy's global generators reseeded and consumed before setup and between setup and run, and twice in one process with a different seed first; the SHA-256 of every logger "
+        "record, all price series and final holdings must coincide and the settings dict must be unchanged; json_extends must leave the settings untouched on every generated inheritance graph (suite C).",
+   note=COMMON_NOTE + "Absence of hidden inputs inside CPython/NumPy is established by the differential test only.")
+
+
 NOT_CLAIMED = {}
